@@ -10,7 +10,8 @@ Sc(e) == [pflags |-> SetOf(e.sc.pflags),
           op |-> e.sc.op, form |-> e.sc.form, enforce |-> e.sc.enforce, hasid |-> e.sc.hasid]
 Judge(e) ==
   LET sc == Sc(e) IN
-  IF e.out = Refuse THEN "ok"
+  IF e.out = Refuse /\ "addressed" \in DOMAIN e /\ MustSucceed(sc) THEN "C16.decrypt-finds"
+  ELSE IF e.out = Refuse THEN "ok"
   ELSE IF ~FormOK(sc.op, sc.form) \/ ~sc.hasid THEN "C16.preconditions"
   ELSE IF Req(sc.op) # {} /\ Qualified(sc) = {} /\ sc.enforce THEN "C16.refuse"
   ELSE IF e.out \notin Components(sc) THEN "C16.names-used"
